@@ -26,8 +26,8 @@ CLAIMS.update({
                 note=REASM_NOTE, technique="Coq invariant proof (sortedness inside a window) + correspondence", design="6 C02"),
     "C03": dict(text="Proof: Theorem C03_lost_exact: for every history the EventsLost reports equal, call by call, the sequence numbers skipped between in-order deliveries (serial-number arithmetic), one positive report per call, nothing for late/duplicate events. Proved of the repaired arithmetic (fix commit 38ca415); the checker is also evaluated on the implementation's trace.",
                 note=REASM_NOTE, technique="Coq proof over all histories + correspondence", design="6 C03"),
-    "C10": dict(text="Proof: C10_bound_any_history (after every Push at most maxInFlight distinct sequences are undelivered, every history), C10_evicted_only_for_cause (every delivery CleanUp makes outside Close is of an event that is complete, or found more than maxInFlight buffered, or whose timeout had elapsed - every buffer, configuration, clock reading), C10_head_not_complete, C10_log_is_the_deliveries. The cause and oldest clauses are stated on the model's state; on observed traces they are decided by the trace walker (Check/ChkReasm.v) and by model agreement.",
-                note=REASM_NOTE + " PARTIAL: the link between the state-level cause theorems and the trace walker's reconstruction (open times, completeness from observables) is not proved; it is exercised by the correspondence.", technique="Coq proof (bound) + trace checker + correspondence", design="6 C10"),
+    "C10": dict(text="Proof: C10_bound_and_cause_on_traces (the checker the judge evaluates on recorded histories - bound after every Push, a cause for every delivery outside Close, oldest buffered event not complete inside a window, all reconstructed from pushes and callbacks alone - accepts every run of the model: all histories, maxInFlight >= 0, timeouts, clock readings; proved by a simulation between the trace walker's state and the model's state), C10_bound_any_history (after every Push at most maxInFlight distinct sequences are undelivered, every history), C10_evicted_only_for_cause (every delivery CleanUp makes outside Close is of an event that is complete, or found more than maxInFlight buffered, or whose timeout had elapsed - every buffer, configuration, clock reading), C10_head_not_complete, C10_log_is_the_deliveries. The cause and oldest clauses are stated on the model's state; on observed traces they are decided by the trace walker (Check/ChkReasm.v) and by model agreement.",
+                note=REASM_NOTE + " Clock readings of the implementation are bracketed by harness stamps; the walker uses them conservatively.", technique="Coq proof (bound) + trace checker + correspondence", design="6 C10"),
     "C11": dict(text="Proof (partial): Theorem C11_all_schedules_partial: in the small-step concurrent model (any threads, programs, re-entrant callbacks) every schedule delivers each put message at most once and at most one Close wins. The tie to the code is the verif yield hook: the harness forces schedules step by step and the model run on the same schedule must give the same callbacks and returns; unscheduled stress runs, close storms and a race-detector run support the runtime part.",
                 note=REASM_NOTE + " PARTIAL: data-race freedom, deadlock freedom and the behaviour of sync.Mutex/atomic are runtime facts (forced schedules with a 2 s deadlock deadline, stress runs and go -race support them); the exactly-once-after-all-returned clause is checked on traces, not yet proved.",
                 technique="Coq proof over all schedules of a small-step model + forced-schedule correspondence via build-tag hook + race detector", design="6 C11"),
@@ -45,7 +45,7 @@ CLAIMS.update({
     "C17": dict(text="Proof: C17_close_at_most_once for every operation sequence, kernel script and fault script; C17_first_close (PID cleared iff SetPID was used, before the socket close); C17_wait_consumes_once_in_order (acknowledged pending requests are consumed once, in order; a second call consumes nothing). "
                      "Partial: the first-error clause and the copy of rule data are decided on every implementation run (rules are read back after later traffic reused the receive buffer); concurrent Close is a runtime fact supported by close storms.",
                 note=CLIENT_NOTE + " PARTIAL: sync.Once under real concurrency is runtime; first-kernel-error clause checked on traces.", technique="Coq invariant proofs over all operation sequences + simulated-kernel correspondence", design="6 C17"),
-    "C19": dict(text="Proof: C19_head_not_stale (what CleanUp leaves at the head is not expired: a stale event goes in the first call whose clock reading is past its expiry once it is the oldest), C19_no_early_timeout (an incomplete event within the bound is evicted only at a reading past its expiry), C19_expiry_fixed_at_open (expiry = reading of the opening Put + timeout, never refreshed), for every timeout and clock reading; C19_closed_is_final, C19_first_close_succeeds, flush-on-Close via chk_C01. On observed traces the timeout clauses are decided with real sleeps by the trace walker and by model agreement.",
+    "C19": dict(text="Proof: C19_timeout_and_close_on_traces (the checker the judge evaluates on recorded histories - oldest remaining event not stale after every Maintain/Push, no delivery without cause, first Close succeeds and leaves nothing, later Maintain/Close return the error without callbacks - accepts every run of the model for every timeout and clock reading; same simulation as C10), C19_head_not_stale (what CleanUp leaves at the head is not expired: a stale event goes in the first call whose clock reading is past its expiry once it is the oldest), C19_no_early_timeout (an incomplete event within the bound is evicted only at a reading past its expiry), C19_expiry_fixed_at_open (expiry = reading of the opening Put + timeout, never refreshed), for every timeout and clock reading; C19_closed_is_final, C19_first_close_succeeds, flush-on-Close via chk_C01. On observed traces the timeout clauses are decided with real sleeps by the trace walker and by model agreement.",
                 note=REASM_NOTE + " PARTIAL: that time.Now() advances as the model's clock input is a runtime fact (30 ms timeouts, 70 ms real sleeps, stamps around every call; undecided comparisons discarded).", technique="Coq proofs (Close) + trace checker with real sleeps + correspondence", design="6 C19"),
 })
 
